@@ -499,7 +499,8 @@ Qed.
 Ltac pjs :=
   repeat (rewrite ?xc_record_cid, ?xh_record_cid, ?xc_set_errors, ?xh_set_errors in *;
           cbn [x_cids x_handler set_scalars set_canons set_iterables set_next_peers set_last_error set_error
-               set_complete set_calls set_cids set_handler set_fold_counter set_ext with_streams
+               set_complete set_calls set_cids set_handler set_fold_counter set_ext with_streams with_canon_maps
+               all_fold_start all_fold_end all_next_before all_next_after
                call_end make_incomplete flush_complete] in * ).
 
 Lemma set_scalar_value_frame : forall x n v y, set_scalar_value x n v = POk y -> x_cids y = x_cids x /\ x_handler y = x_handler x.
@@ -981,7 +982,8 @@ Section KeepInv.
   Ltac pjg :=
     repeat (rewrite ?xc_record_cid, ?xh_record_cid, ?xc_set_errors, ?xh_set_errors;
             cbn [x_cids x_handler set_scalars set_canons set_iterables set_next_peers set_last_error set_error
-                 set_complete set_calls set_cids set_handler set_fold_counter set_ext with_streams
+                 set_complete set_calls set_cids set_handler set_fold_counter set_ext with_streams with_canon_maps
+                 all_fold_start all_fold_end all_next_before all_next_after
                  call_end make_incomplete flush_complete]).
   Ltac rgo :=
     first
@@ -1008,10 +1010,9 @@ Section KeepInv.
     assert (Hh : forall i0 x0, xres_sat R x0 (match E (exec E n) i0 x0 with Some r' => r' | None => XUnsupported "stream" end)).
     { intros i0 x0. destruct (E (exec E n) i0 x0) eqn:Ee; [| exact I]. apply (R_hook _ IH _ _ _ Ee). }
     destruct i; try (rewrite exec_par_unfold; apply sat_wrap; apply par_body_spec; exact IH);
-      cbn [exec]; try apply sat_wrap; try exact I.
+      cbn [exec]; try apply sat_wrap; try exact I; try apply Hh.
     - (* call *) apply R_call.
     - (* ap *) destruct r; [apply sat_of_frame; apply exec_ap_frame | apply Hh].
-    - (* canon *) apply Hh.
     - (* seq *)
       repeat dm IH; try solve [rfin].
       eapply sat_trans; [| apply IH]. rfin.
@@ -1024,7 +1025,6 @@ Section KeepInv.
     - (* fail *) apply sat_of_frame. apply exec_fail_frame.
     - (* fold scalar *)
       repeat dm IH; try solve [rfin].
-    - (* fold stream *) apply Hh.
     - (* never *) rfin.
     - (* new *)
       match goal with na : new_arg |- _ => destruct na end; try apply Hh; try exact I.
